@@ -37,7 +37,7 @@ RULE = (
 )
 CLASSES = [
     "crash", "torn", "fault_EIO", "fault_ENOSPC", "fault_EACCES", "fault_EXDEV", "fault_EROFS", "double_fault",
-    "between_two_renames", "rollback_exercised", "retry_after_handled_error", "retry_returned_normally", "collision_dest", "dest_is_remains_of_interrupted_job", "threads_off", "persistent_cache",
+    "between_two_renames", "rollback_exercised", "retry_after_handled_error", "retry_returned_normally", "collision_dest", "dest_is_remains_of_interrupted_job", "threads_off", "persistent_cache", "lazy_handle_by_id",
     "op_init_fresh", "op_init_existing", "op_init_force", "op_rekey_set", "op_rekey_assign", "op_update_statepoint",
     "op_move", "op_clone", "op_remove", "op_clear", "op_reset",
 ]
@@ -72,6 +72,7 @@ def cases(draw):
         "dest": draw(st.sampled_from(["fresh", "fresh", "collide", "same", "remains"])),
         "threads": draw(st.sampled_from([True, True, False])),
         "cache": draw(st.sampled_from([False, False, True])),
+        "prov": draw(st.sampled_from(["sp", "sp", "id"])),
         "double": draw(st.lists(st.tuples(st.integers(0, 30), st.integers(1, 12), st.sampled_from(sorted(ERRNOS)), st.sampled_from(sorted(ERRNOS))), max_size=4)),
         "torn": draw(st.lists(st.integers(2, 30), max_size=2)),
     }
@@ -117,6 +118,9 @@ def build(ctx, case):
         elif case["dest"] == "remains":
             # what an earlier, interrupted operation left under the destination id: data files, no state point
             # file (check() reports it). It is somebody's data: the operation must refuse and leave it alone.
+            if case.get("cache"):
+                p0.update_cache()  # (written while the workspace was still intact)
+                p1.update_cache()
             rd = os.path.join(p0.workspace, info["new_id"])
             fsutil.write_file(os.path.join(rd, "dest.txt"), b"remains of an interrupted job")
             fsutil.write_file(os.path.join(rd, "sub", "more.txt"), b"more")
@@ -128,7 +132,7 @@ def build(ctx, case):
             d = p1.open_job(case["sp"]).init()
             fsutil.write_file(d.fn("dest.txt"), b"destination payload")
             info["dest"] = ("p1", d.id)
-    if case.get("cache"):
+    if case.get("cache") and not info.get("remains"):
         # a persistent state point cache written before the operation (it lists the affected job's old id)
         p0.update_cache()
         p1.update_cache()
@@ -149,6 +153,10 @@ def make_actor(case, root, retry=False):
             _StatePointDict.disable_multithreading()
         p0 = signac.Project(os.path.join(root, "p0"))
         p1 = signac.Project(os.path.join(root, "p1"))
+        if case.get("prov") == "id" and op not in ("init_fresh", "init_force", "init_existing"):
+            # a handle opened by id in a new session: it has not read its state point yet
+            job = p0.open_job(id=oracle.job_id(case["sp"]))
+            return p0, p1, job
         job = p0.open_job(json.loads(json.dumps(case["sp"])))
         if op not in ("init_fresh", "init_force", "init_existing"):
             job.statepoint()  # materialise outside the enumerated window
@@ -164,6 +172,7 @@ def make_actor(case, root, retry=False):
         except Exception as e:
             first = type(e).__name__
         fsshim.S.faults = None
+        fsshim.S.read_fault = None
         try:
             act_once(state)
         except Exception as e:
@@ -405,6 +414,7 @@ def run_case(case, ctx):
                     why = f"directory {pn_new}/{target} does not validate"
                 elif any(d[1].get(k) != b for k, b in P.items()):
                     why = f"directory {pn_new}/{target} lacks payload files {sorted(k for k, b in P.items() if d[1].get(k) != b)}"
+            judge(case, info, pre_snap, succ_snap, root, "retry after " + where, None, False, mms)
             if why:
                 mms.append(Mismatch("H5_retry_silent_noop", f"{where}: {ret['first']} raised; the same call repeated on the same handle returned normally, but {why}"))
         shutil.rmtree(root, ignore_errors=True)
@@ -434,6 +444,14 @@ def run_case(case, ctx):
                 keys.append(f"f{k}:{ename}")
             if exc is not None and renames and k == renames[-1] and len(renames) >= 2:
                 counts["rollback_exercised"] = counts.get("rollback_exercised", 0) + 1
+    if case.get("prov") == "id" and op in ("rekey_set", "update_statepoint", "move", "clone", "clear", "reset", "remove"):
+        # the lazy handle's first look at its state point file fails with a handled I/O error
+        cl.add("lazy_handle_by_id")
+        for ename in ("EIO", "EACCES"):
+            if ctx.out_of_time():
+                break
+            one(f"{ename} at the first read of the state point file", "fault", mode="fault", read_fault=(SP_FILE, 1, ERRNOS[ename]))
+            counts["read_fault_statepoint"] = counts.get("read_fault_statepoint", 0) + 1
     for k1, dk, e1, e2 in case.get("double", []):
         if ctx.out_of_time() or n < 2:
             break
@@ -458,6 +476,9 @@ def constructed():
             out.append(dict(base, op=op, dest=dest))
     out.append(dict(base, op="rekey_set", dest="same"))
     out.append(dict(base, op="rekey_set", dest="remains"))
+    out.append(dict(base, op="rekey_set", dest="fresh", prov="id"))
+    out.append(dict(base, op="update_statepoint", dest="fresh", prov="id"))
+    out.append(dict(base, op="move", dest="fresh", prov="id"))
     out.append(dict(base, op="update_statepoint", dest="remains"))
     out.append(dict(base, op="rekey_set", dest="fresh", cache=True))
     out.append(dict(base, op="move", dest="fresh", cache=True))
